@@ -64,3 +64,37 @@ def install(world):
     world.handlers[("SequenceRecord", "__getslice__")] = rec_slice
     world.handlers[("SequenceRecord", "__len__")] = rec_len
     world.global_providers.append(c_globals)
+
+# ---------------------------------------------------------------- reverse complement (dnaio)
+COMP = z3.Function("dna_complement", z3.IntSort(), z3.IntSort())
+TRUSTED["dnaio-revcomp"] = ("dnaio.SequenceRecord.reverse_complement(): fresh record, same name, sequence reversed and "
+                            "complemented character-wise, qualities reversed")
+
+
+def rec_revcomp(ex, st, rec, args, kwargs, node, spec):
+    from pyvc.values import fresh, AII, I
+    cx = ex.cx
+    cache = cx.__dict__.setdefault("_rc_cache", {})
+    seq = rec.fields["sequence"]
+    q = rec.fields["qualities"]
+    key = (seq.arr.get_id(), seq.n.get_id(), q.val.arr.get_id() if isinstance(q, Opt) else 0)
+    if key not in cache:
+        k = z3.Int("k!rc")
+        rs = fresh("rc.seq", AII)
+        cx.axioms.append(z3.ForAll([k], rs[k] == COMP(seq.arr[seq.n - 1 - k]), patterns=[rs[k]]))
+        rq = None
+        if isinstance(q, Opt):
+            rqa = fresh("rc.qual", AII)
+            cx.axioms.append(z3.ForAll([k], rqa[k] == q.val.arr[q.val.n - 1 - k], patterns=[rqa[k]]))
+            rq = Opt(q.none, StrV(rqa, q.val.n))
+        cache[key] = (StrV(rs, seq.n), rq, fresh("id.rc", I))
+    s2, q2, oid = cache[key]
+    return ObjV("SequenceRecord", {"name": rec.fields["name"], "sequence": s2, "qualities": q2, "__id__": oid})
+
+
+_install0 = install
+
+
+def install(world):
+    _install0(world)
+    world.handlers[("SequenceRecord", "reverse_complement")] = rec_revcomp
